@@ -9,6 +9,17 @@ TRUST = ("Trusted base: CPython, Hypothesis, the reference models under lsfverif
          "'held' means held on the cases counted in the evidence file.")
 
 CHECKS = {
+    "C13": dict(
+        category="exploration",
+        technique="property-based differential testing of intrinsic expressions / payload templates against a hand-written reference parser+evaluator; ill-formed-input exception typing; canary for code execution; PYTHONHASHSEED metamorphic runs in sub-processes",
+        text=("Hypothesis generates intrinsic expressions from the function grammar (all Appendix-B functions, typed and ill-typed arguments, nesting to depth 2/3, "
+              "strings with , ' \\ ( ) [ ] ^, Format placeholders and escaped braces), ill-formed variants and payload templates; each is evaluated by "
+              "evaluate_payload_template and by an independent recursive-descent reference; values, failure kinds (IntrinsicFailure / path failure, never another exception), "
+              "non-mutation, no reachability of interpreter internals and independence from PYTHONHASHSEED are checked; a slice runs through one-state executions to check the "
+              "States.IntrinsicFailure / States.Runtime mapping."),
+        design_ref="DESIGN.md section 5 C13",
+        note="Only the reference's verdicts are asserted; cases it marks unspecified (non-canonical base64, empty split segments, brace use outside Format, ...) are skipped and counted. " + TRUST,
+    ),
     "C01": dict(
         category="exploration",
         technique="property-based differential testing: Hypothesis grammar-generated (machine, input, task behaviour) triples, real engine stack on a simulated broker vs an independent reference interpreter",
